@@ -331,6 +331,16 @@ def rule_option_plumbing(ctx, rep: Report, rid="Y3"):
             elif kind[0] == "branch":
                 tests = [unparse(i.test) for i in ast.walk(scope) if isinstance(i, ast.If)]
                 rep.add(rid, f"{which}:{flag}:selects wrap_submodule vs wrap", f"{_args_var(scope)}.{o['dest']}" in tests, f"tests {tests}", loc)
+        # a switch that is absent means "off" (and one of the store_false kind "on"): that is the value the API defaults to
+        for flag in sorted(opts):
+            kw = opts[flag]["kw"]
+            act = kw.get("action")
+            if isinstance(act, ast.Constant) and act.value in ("store_true", "store_false") and "default" in kw:
+                dv = kw["default"].value if isinstance(kw["default"], ast.Constant) else None
+                want = act.value == "store_false"
+                rep.add(rid, f"{which}:{flag}:an absent switch has the value of the API's default", dv is want,
+                        f"action={act.value} with default={unparse(kw['default'])}: the switch is on (and cannot be turned off) although the command line does not "
+                        f"mention it - the script then does something else than the API called without that option", f"{rel}:{opts[flag]['node'].lineno}")
         missing = sorted(set(table) - set(opts))
         rep.add(rid, f"{which}:every documented option is declared", not missing, f"missing {missing}", f"{rel}:1", nontrivial=False)
         # an option that may be None must not reach a membership / iteration use
